@@ -197,6 +197,11 @@ def rect_cases(tier, seed=0):
         l, r = lay_A(ls, rs)
         yield l, r, {}                                       # natural key
         yield l, r, {'key': 'k', 'missing': 'NA', 'rprefix': 'r_'}
+        # non-string field names with a prefix on ONE side only: the other side's names must stay the objects they are
+        li = [tuple(f if f == 'k' else 100 + j for j, f in enumerate(l[0]))] + list(l[1:])
+        ri = [tuple(f if f == 'k' else 200 + j for j, f in enumerate(r[0]))] + list(r[1:])
+        yield li, ri, {'key': 'k', 'rprefix': 'r_'}
+        yield li, ri, {'key': 'k', 'lprefix': 'l_'}
     if tier == 'thorough':
         cks = [list(seqs(list(itertools.product(K3, repeat=2)), 2)), list(seqs(list(itertools.product((None, 0), repeat=2)), 3))]
     else:
